@@ -1068,4 +1068,69 @@ def stmtGrammar : List (String × List String × Option String × String) := [
   ("variable_name", ["limited_identifier"], none,
     "$0 = $1") ]
 
+/-! ### re-spelling of keywords (C08)
+
+  `Block.mapKw g` rewrites exactly the fields of a statement tree that hold the lexeme of a keyword-kind
+  token: select cardinality, `self` written as an instance name (delete / relate / unrelate / using), and,
+  inside expressions, boolean literal values and operators (`Expr.mapKw`). -/
+
+def CardTok.mapKw (g : Kind → String → String) (c : CardTok) : CardTok := ⟨c.c, g c.c.kind c.lex⟩
+
+def InstName.mapKw (g : Kind → String → String) : InstName → InstName
+  | .var n => .var n
+  | .self lex => .self (g .SELF lex)
+
+def EvSpec.mapKw (g : Kind → String → String) (es : EvSpec) : EvSpec :=
+  ⟨es.id, es.star, es.meaning, es.parens, es.data.mapKw g⟩
+
+def EvTarget.mapKw (g : Kind → String → String) : EvTarget → EvTarget
+  | .inst e => .inst (e.mapKw g)
+  | tg => tg
+
+mutual
+def Stmt.mapKw (g : Kind → String → String) : Stmt → Stmt
+  | .brk => .brk
+  | .cont => .cont
+  | .ctrl => .ctrl
+  | .ret e => .ret (e.map (Expr.mapKw g))
+  | .assign kw va e => .assign kw (va.mapKw g) (e.mapKw g)
+  | .invoke inv => .invoke (inv.mapKw g)
+  | .kwCall k va ns n ps => .kwCall k (va.map (Expr.mapKw g)) ns n (ps.mapKw g)
+  | .trCall va h n ps => .trCall (va.map (Expr.mapKw g)) (h.mapKw g) n (ps.mapKw g)
+  | .sendEvent p n ps to => .sendEvent p n (ps.mapKw g) (to.mapKw g)
+  | .gen es tg => .gen (es.mapKw g) (tg.mapKw g)
+  | .genPre va => .genPre (va.mapKw g)
+  | .crtEv v es tg => .crtEv v (es.mapKw g) (tg.mapKw g)
+  | .createObj v kl => .createObj v kl
+  | .createObjNoVar kl => .createObjNoVar kl
+  | .delete i => .delete (i.mapKw g)
+  | .forEach v s lp b => .forEach v s lp (b.mapKw g)
+  | .while_ c lp b => .while_ (c.mapKw g) lp (b.mapKw g)
+  | .if_ c th b el e => .if_ (c.mapKw g) th (b.mapKw g) (el.mapKw g) (e.mapKw g)
+  | .rel un a b r ph u => .rel un (a.mapKw g) (b.mapKw g) r ph (u.map (InstName.mapKw g))
+  | .selFrom card v io kl w => .selFrom (card.mapKw g) v io kl (w.map (Expr.mapKw g))
+  | .selRel card v hook chain w => .selRel (card.mapKw g) v (hook.mapKw g) chain (w.map (Expr.mapKw g))
+def Block.mapKw (g : Kind → String → String) : Block → Block
+  | .nil => .nil
+  | .cons s b => .cons (s.mapKw g) (b.mapKw g)
+def Elifs.mapKw (g : Kind → String → String) : Elifs → Elifs
+  | .nil => .nil
+  | .cons c th b more => .cons (c.mapKw g) th (b.mapKw g) (more.mapKw g)
+def Else.mapKw (g : Kind → String → String) : Else → Else
+  | .none => .none
+  | .some b => .some (b.mapKw g)
+end
+
+/-- the tree with the spelling of keywords normalised: lower-cases exactly the fields that keep a keyword
+    verbatim (select cardinality, operator of unary / binary nodes, boolean literal value, `self` as an
+    instance name); identifiers, literals, phrases, relationship ids are untouched -/
+def normCase (b : Block) : Block := b.mapKw lowerKw
+
+def Expr.normCase (e : Expr) : Expr := e.mapKw lowerKw
+
+/-- the tree with the spelling of keywords forgotten -/
+def eraseCase (b : Block) : Block := b.mapKw eraseKw
+
+def Expr.eraseCase (e : Expr) : Expr := e.mapKw eraseKw
+
 end Pyx.Oal
